@@ -149,7 +149,11 @@ def run(ctx):
     return any(pred(cs) for cs in conds.values())
   ctx.check(has(lambda cs: ('statement.alias', True) in cs and any(t.startswith('statement.is_from and') or t == 'statement.is_from' for t, p in cs if p)),
             'C19.guards', construct(pi), 'an aliased __gin__ import is rejected', 'aliased __gin__ imports are no longer rejected', pi.loc(), instance='aliased-enable')
-  ctx.check(has(lambda cs: ('self._imports', True) in cs and ("feature == 'dynamic_registration'", True) in cs),
+  # "this is the dynamic_registration feature", in either spelling (the part after `__gin__.`, or the whole module path)
+  def is_dr(cs, pol):
+    return ("feature == 'dynamic_registration'", pol) in cs or ("statement.module == '__gin__.dynamic_registration'", pol) in cs \
+        or ("'dynamic_registration' == feature", pol) in cs or ("'__gin__.dynamic_registration' == statement.module", pol) in cs
+  ctx.check(has(lambda cs: ('self._imports', True) in cs and is_dr(cs, True)),
             'C19.guards', construct(pi), 'enabling dynamic registration after another import is rejected', 'a late enabling statement is no longer rejected', pi.loc(), instance='late-enable')
   def switches_on(fn_node):
     return any(isinstance(a, ast.Assign) and any(u(t) == 'self._dynamic_registration' for t in a.targets) and u(a.value) == 'True'
@@ -170,7 +174,7 @@ def run(ctx):
   ctx.check(bool(en) and not miss, 'C19.guards', construct(pi), 'dynamic registration is switched on only by an un-aliased statement that precedes every other import',
             'dynamic registration can be switched on although: %s' % ', '.join(l for l, _ in miss) if miss else 'the enabling statement no longer enables dynamic registration',
             pi.loc(), instance='enable-conditions')
-  ctx.check(has(lambda cs: ("feature == 'dynamic_registration'", False) in cs),
+  ctx.check(has(lambda cs: is_dr(cs, False)),
             'C19.guards', construct(pi), 'an unknown __gin__ feature is rejected', 'unknown __gin__ features are no longer rejected', pi.loc(), instance='unknown-feature')
   # which module object a statement binds: the leaf module for `from` / `as` forms, the top-level package for a plain `import a.b.c`
   imps = [cc for cc in walk_local(pi.node) if isinstance(cc, ast.Call) and u(cc.func) in ('__import__', 'importlib.import_module', 'import_module')]
